@@ -211,43 +211,53 @@ FirstInStateFailure(u, txs, i) == IF i > Len(txs) THEN ""
                                   ELSE LET f == TxInState(u, txs[i])
                                        IN IF f # "" THEN f ELSE FirstInStateFailure(u, txs, i + 1)
 
-InState(b) ==
+CSV == [blocks |-> blocks, order |-> order, utxo |-> utxo, byHeight |-> byHeight, tips |-> tips, head |-> head]
+
+InStateOn(c, b) ==      \* validate_block_in_coinstate(block, c) for a chain-state value c
   IF b.height <= Horizon
   THEN (IF b.height \in DOMAIN Known /\ b.id # Known[b.height] THEN "checkpoint" ELSE "")
-  ELSE IF b.parent \notin DOMAIN blocks THEN "parent"
-  ELSE IF b.ts <= blocks[b.parent].ts THEN "ts_order"
-  ELSE LET et == ExpectedTarget(blocks, byHeight, b.parent, b.ts)
-           fs == FeeSum(utxo[b.parent], OtherTxs(b), 1)
+  ELSE IF b.parent \notin DOMAIN c.blocks THEN "parent"
+  ELSE IF b.ts <= c.blocks[b.parent].ts THEN "ts_order"
+  ELSE LET et == ExpectedTarget(c.blocks, c.byHeight, b.parent, b.ts)
+           fs == FeeSum(c.utxo[b.parent], OtherTxs(b), 1)
        IN IF ~et.ok THEN "target_error"
           ELSE IF b.target # et.t THEN "target"
           ELSE IF ~b.evok THEN "evidence"
-          ELSE IF b.height # blocks[b.parent].height + 1 THEN "height"
+          ELSE IF b.height # c.blocks[b.parent].height + 1 THEN "height"
           ELSE IF ~fs.ok THEN "fees_error"
           ELSE IF SumOuts(b.txs[1]) > fs.f + Subsidy(b.height) THEN "reward"
-          ELSE FirstInStateFailure(utxo[b.parent], OtherTxs(b), 1)
+          ELSE FirstInStateFailure(c.utxo[b.parent], OtherTxs(b), 1)
+InState(b) == InStateOn(CSV, b)
 
 FirstFailing(b, now) == LET f == ByItself(b, now) IN IF f # "" THEN f ELSE InState(b)
 
-ParentU(b) == IF IsRoot(b) THEN [ok |-> TRUE, u |-> EmptyU]
-              ELSE IF b.parent \in DOMAIN utxo THEN [ok |-> TRUE, u |-> utxo[b.parent]]
-              ELSE [ok |-> FALSE, u |-> EmptyU]                       \* KeyError
-CanApply(b) == ParentU(b).ok /\ ApplyBlock(ParentU(b).u, b).ok
-                 /\ (IsRoot(b) \/ b.parent \in DOMAIN byHeight)
+ParentUOn(c, b) == IF IsRoot(b) THEN [ok |-> TRUE, u |-> EmptyU]
+                   ELSE IF b.parent \in DOMAIN c.utxo THEN [ok |-> TRUE, u |-> c.utxo[b.parent]]
+                   ELSE [ok |-> FALSE, u |-> EmptyU]                       \* KeyError
+CanApplyOn(c, b) == ParentUOn(c, b).ok /\ ApplyBlock(ParentUOn(c, b).u, b).ok
+                      /\ (IsRoot(b) \/ b.parent \in DOMAIN c.byHeight)
+ParentU(b) == ParentUOn(CSV, b)
+CanApply(b) == CanApplyOn(CSV, b)
 
 -----------------------------------------------------------------------------
 (* actions *)
 
-Store(b) ==      \* CoinState.add_block_no_validation, the five maps as the code updates them
+Stored(c, b) ==      \* CoinState.add_block_no_validation as a function on chain-state values: the five maps as the code updates them
+  [blocks |-> (b.id :> b) @@ c.blocks,
+   order |-> IF b.id \in DOMAIN c.blocks THEN c.order ELSE Append(c.order, b.id),
+   utxo |-> (b.id :> ApplyBlock(ParentUOn(c, b).u, b).u) @@ c.utxo,
+   byHeight |-> IF IsRoot(b) THEN (b.id :> (0 :> b.id))        \* quirk: a root block resets the whole index
+                ELSE (b.id :> ((b.height :> b.id) @@ c.byHeight[b.parent])) @@ c.byHeight,
+   tips |-> (c.tips \ {b.parent}) \cup {b.id},
+   head |-> IF c.head = NoBlock \/ c.head = b.parent THEN b.id
+            ELSE IF b.height > c.blocks[c.head].height THEN b.id
+            ELSE c.head]
+
+Store(b) ==
   /\ CanApply(b)
-  /\ blocks' = (b.id :> b) @@ blocks
-  /\ order' = IF b.id \in DOMAIN blocks THEN order ELSE Append(order, b.id)
-  /\ utxo' = (b.id :> ApplyBlock(ParentU(b).u, b).u) @@ utxo
-  /\ byHeight' = IF IsRoot(b) THEN (b.id :> (0 :> b.id))        \* quirk: a root block resets the whole index
-                 ELSE (b.id :> ((b.height :> b.id) @@ byHeight[b.parent])) @@ byHeight
-  /\ tips' = (tips \ {b.parent}) \cup {b.id}
-  /\ head' = IF head = NoBlock \/ head = b.parent THEN b.id
-             ELSE IF b.height > blocks[head].height THEN b.id
-             ELSE head
+  /\ LET n == Stored(CSV, b)
+     IN /\ blocks' = n.blocks /\ order' = n.order /\ utxo' = n.utxo
+        /\ byHeight' = n.byHeight /\ tips' = n.tips /\ head' = n.head
 
 (* CoinState.add_block = validate, then apply.  `f` is FirstFailing(b, now), passed in so that     *)
 (* wrappers evaluate the rule cascade once per candidate.                                         *)
